@@ -229,7 +229,7 @@ def _closest_farthest_semantics(ctx, mdl):
                     ls = [it.construct('path.Line', Rat.const(complex(a[0], a[1])), Rat.const(complex(b[0], b[1]))) for a, b in segs]
                     return it.call(it.closure_of('path.' + fn), [Rat.const(complex(z[0], z[1])), it.construct('path.Path', *ls)], {})
                 try:
-                    paths = explore(ctx.model, th, {})
+                    paths = explore(ctx.model, th, {'time_limit': 30})
                 except Undecidable as e:
                     und = str(e)
                     break
